@@ -70,3 +70,12 @@ P("C19", "mirfacts+srcfacts+rules",
   "load, never overwritten, before validate, and defaults only without a file; that on run_generate/run_init/generate_from_config every "
   "filesystem-mutating step is dominated by validate()? success and validate accepts exactly {zod, none} and checks the project path.",
   "value-level JSON round-trip inside serde_json is trusted; the build-script path's fallback to defaults is outside the command-line clause", b=True)
+
+P("C20", "mirfacts+rules",
+  "static analysis: dominance / guard / reachability facts (ORDER, CTRL, CALLS) on the MIR of the DFS and Kahn routines",
+  "Decides the structural necessary conditions of the two ordering routines: recursion guarded by visiting/visited with the node entered into "
+  "visiting first; push exactly once under the visited test with visited.insert on the same path, as the only mutation of a result returned "
+  "unmodified; no recursion reachable from the push (post-order); every requested name visited under the sole guard; Kahn's in-degree/adjacency "
+  "bookkeeping, queueing at degree 0 and Ok only under the length test.  The behavioural statement over all graphs is NOT claimed (it needs "
+  "proof or enumeration); by the DFS finishing-time lemma these conditions are what the code's correctness argument rests on.",
+  "the lemma-level argument is stated, not mechanised")
